@@ -197,6 +197,9 @@ def make_twin(prog):
 
 def run_case(case):
     prog = case["prog"]
+    if known.active("three-same-signal-sources") and any(lang.same_type_fanin(p_) for p_ in (prog,)):
+        # open finding F-three-same: such a program is wired wrongly, and differently in every layout
+        return {"discard": "excluded:F-three-same", "counters": {"excluded_by:F-three-same": 1}}
     opt = case.get("optimize", True)
     text, ra = twin.build(prog, {}, opt, case.get("sched"))
     if not ra.accepted:
